@@ -283,6 +283,94 @@ class _ForwardSubst:
         return state['done']
 
 
+class _CompToLoop:
+    """x = [e for t in it if c]        ->  x = [] ; for t in it: if c: x.append(e)
+    x = {k: v for t in it if c}     ->  x = {} ; for t in it: if c: x[k] = v
+    return <comprehension>          ->  through a fresh local
+    (statement-level list/dict comprehensions only; comprehension variables that clash with
+    another name of the function are renamed)."""
+
+    def run(self, tree):
+        for fn in [n for n in ast.walk(tree) if isinstance(n, (ast.FunctionDef, ast.AsyncFunctionDef))]:
+            self.names = {n.id for n in ast.walk(fn) if isinstance(n, ast.Name)} | {a.arg for a in ast.walk(fn) if isinstance(a, ast.arg)}
+            self.fn = fn
+            self._blocks(fn)
+        return tree
+
+    def _blocks(self, node):
+        for f in ('body', 'orelse', 'finalbody'):
+            b = getattr(node, f, None)
+            if isinstance(b, list) and b and isinstance(b[0], ast.stmt):
+                out = []
+                for st in b:
+                    if not isinstance(st, (ast.FunctionDef, ast.AsyncFunctionDef, ast.ClassDef)):
+                        self._blocks(st)
+                    out.extend(self._stmt(st))
+                setattr(node, f, out)
+        if isinstance(node, ast.Try):
+            for h in node.handlers:
+                self._blocks(h)
+
+    def _fresh(self, base):
+        n = base
+        while n in self.names:
+            n += '_c'
+        self.names.add(n)
+        return n
+
+    def _stmt(self, st):
+        comp, target = None, None
+        if isinstance(st, ast.Assign) and len(st.targets) == 1 and isinstance(st.targets[0], ast.Name) and isinstance(st.value, (ast.ListComp, ast.DictComp)):
+            comp, target = st.value, st.targets[0].id
+        elif isinstance(st, ast.Return) and isinstance(st.value, (ast.ListComp, ast.DictComp)):
+            comp, target = st.value, self._fresh('result')
+        if comp is None or any(g.is_async for g in comp.generators):
+            return [st]
+        # the target must not be read inside the comprehension (x = [f(x) for ...])
+        if any(isinstance(n, ast.Name) and n.id == target for n in ast.walk(comp)):
+            return [st]
+        # comprehension variables: rename when they clash with any other use in the function
+        cvars = {n.id for g in comp.generators for n in ast.walk(g.target) if isinstance(n, ast.Name)}
+        outside = set()
+        inside = {id(n) for n in ast.walk(comp)}
+        for n in ast.walk(self.fn):
+            if id(n) not in inside:
+                if isinstance(n, ast.Name):
+                    outside.add(n.id)
+                elif isinstance(n, ast.arg):
+                    outside.add(n.arg)
+        ren = {v: self._fresh(v + '_c') for v in cvars if v in outside}
+        if ren:
+            for n in ast.walk(comp):
+                if isinstance(n, ast.Name) and n.id in ren:
+                    n.id = ren[n.id]
+        tgt_load = lambda: ast.Name(id=target, ctx=ast.Load())
+        if isinstance(comp, ast.ListComp):
+            init = ast.List(elts=[], ctx=ast.Load())
+            inner = ast.Expr(value=ast.Call(func=ast.Attribute(value=tgt_load(), attr='append', ctx=ast.Load()), args=[comp.elt], keywords=[]))
+        else:
+            init = ast.Dict(keys=[], values=[])
+            inner = ast.Assign(targets=[ast.Subscript(value=tgt_load(), slice=comp.key, ctx=ast.Store())], value=comp.value)
+        body = inner
+        for g in reversed(comp.generators):
+            for c in reversed(g.ifs):
+                body = ast.If(test=c, body=[body], orelse=[])
+            # flatten if a and b chains are left as nested ifs
+            for n in ast.walk(g.target):
+                if hasattr(n, 'ctx'):
+                    n.ctx = ast.Store()
+            body = ast.For(target=g.target, iter=g.iter, body=[body], orelse=[])
+        out = [ast.Assign(targets=[ast.Name(id=target, ctx=ast.Store())], value=init), body]
+        if isinstance(st, ast.Return):
+            out.append(ast.Return(value=tgt_load()))
+        for o in out:
+            ast.copy_location(o, st)
+            for n in ast.walk(o):
+                if not hasattr(n, 'lineno') and isinstance(n, (ast.stmt, ast.expr)):
+                    ast.copy_location(n, st)
+        return out
+
+
 def _as_load(t):
     import copy
     t2 = copy.deepcopy(t)
@@ -294,6 +382,7 @@ def _as_load(t):
 
 def canonicalise(tree):
     if isinstance(tree, ast.Module):
+        tree = _CompToLoop().run(tree)
         tree = _ForwardSubst().run(tree)
     tree = _Canon().visit(tree)
     ast.fix_missing_locations(tree)
